@@ -61,7 +61,7 @@ AllEff == [m \in {x \in Mgrs : mgr'[x] # Null} |->
                 [k |-> IF scen'[m][sc].k > 0 THEN scen'[m][sc].k ELSE IF "D23_step_setting_sticks" \in Dev THEN mk'[m][sc] ELSE BaseK,
                  tab |-> IF scen'[m][sc].tab # "" THEN scen'[m][sc].tab ELSE dict'[tobj'[m][sc]],
                  rs |-> IF scen'[m][sc].rs # "" THEN scen'[m][sc].rs ELSE BaseRS]]]
-Log(rec) == hist' = Append(hist, rec @@ [all |-> AllEff, base |-> [k |-> BaseK, tab |-> dict'[0], rs |-> BaseRS]])
+Log(rec) == hist' = IF L = 0 THEN hist ELSE Append(hist, rec @@ [all |-> AllEff, base |-> [k |-> BaseK, tab |-> dict'[0], rs |-> BaseRS]])
 
 (********************************* actions **********************************)
 RegMgr(m, bk, bt) ==       \* bptk.register_scenario_manager({m: {"model": base, "base_constants": .., "base_points": ..}})
